@@ -111,15 +111,28 @@ class Harness:
         ns["decode_string_fix"] = string_fix
 
         def dint(data_raw, off, ln):
-            if is_symbolic(ln) or is_symbolic(off):
+            if is_symbolic(ln) or (is_symbolic(off) and not self.var_mode):
                 raise StopDefinition("field with data-dependent length/position")
             return self.real["decode_int"](data_raw, off, ln)
         ns["decode_int"] = dint
 
-        def stop(*a):
-            raise StopDefinition("variable-length string")
-        ns["decode_string_lz"] = stop
-        ns["decode_string_lau"] = stop
+        self.var_mode = False
+
+        def mk_str(name):
+            realfn = getattr(U, name)
+
+            def w(*a):
+                if not self.var_mode:
+                    raise StopDefinition("variable-length string")
+                old = SymBytes.decode
+                SymBytes.decode = lambda self_, enc="utf-8", **k: SymText(list(self_.items), encoding=enc)
+                try:
+                    return realfn(*a)
+                finally:
+                    SymBytes.decode = old
+            return w
+        ns["decode_string_lz"] = mk_str("decode_string_lz")
+        ns["decode_string_lau"] = mk_str("decode_string_lau")
         orig_msg = ns["NMEA2000Message"]
 
         def mk(*a, **k):
@@ -175,6 +188,138 @@ def layout(p):
     segs.append(z3.BitVec("garbage", 16))
     pv = z3.Concat(*reversed(segs)) if len(segs) > 1 else segs[0]
     return pv, fvars, W
+
+
+class FieldView:
+    """a database field placed at a computed position (definitions with variable-length strings, lengths pinned)"""
+
+    def __init__(self, f, off, ln):
+        self.__dict__.update(f.__dict__)
+        self._f = f
+        self.off, self.len = off, ln
+        self._id = f.id
+
+    @property
+    def id(self):
+        return self._id
+
+    @property
+    def fixed(self):
+        return True
+
+    def flt(self, name):
+        return self._f.flt(name)
+
+
+def layout_var(p, strlen):
+    """payload for a definition with STRING_LAU/STRING_LZ fields when every string has `strlen` text bytes:
+    returns (payload term, {order: var}, views, assumptions) or None when the definition cannot be laid out"""
+    views = []
+    ro = 0
+    segs = []
+    fvars = {}
+    assume = []
+    pos = 0
+    for f in p.fields:
+        off = f.off if f.off is not None else ro
+        if off is None or off < pos:
+            return None
+        if off > pos:
+            segs.append(z3.BitVec("gap_%d" % pos, off - pos))
+        if f.type == "STRING_LAU":
+            ln = 8 * (2 + strlen)
+            v = z3.BitVec("f%d" % f.order, ln)
+            assume += [z3.Extract(7, 0, v) == 2 + strlen, z3.Extract(15, 8, v) == 1]
+            if strlen:
+                assume.append(z3.Extract(ln - 1, ln - 8, v) != 0)      # last text byte non-zero: nothing is trimmed
+        elif f.type == "STRING_LZ":
+            ln = 8 * (1 + strlen)
+            v = z3.BitVec("f%d" % f.order, ln)
+            assume.append(z3.Extract(7, 0, v) == strlen)
+            if strlen:
+                assume.append(z3.Extract(ln - 1, ln - 8, v) != 0)
+        elif f.len is not None:
+            ln = f.len
+            v = z3.BitVec("f%d" % f.order, ln)
+        else:
+            return None
+        fvars[f.order] = v
+        segs.append(v)
+        views.append(FieldView(f, off, ln))
+        pos = off + ln
+        ro = pos
+    W = (pos + 7) // 8 * 8
+    if pos < W:
+        segs.append(z3.BitVec("tail_%d" % pos, W - pos))
+    # no garbage above: the string kernels look at everything above their offset (minimal-length to_bytes)
+    pv = z3.Concat(*reversed(segs)) if len(segs) > 1 else segs[0]
+    return pv, fvars, views, assume, W
+
+
+@guarded
+def _var_worker(idxs):
+    """definitions with variable-length strings: string lengths pinned (0 and 3 text bytes), everything else symbolic"""
+    from . import explorer
+    explorer.STATS.__init__()
+    D, H = _G["D"], _G["H"]
+    rep = Report(PID, _G["tier"], 0, "translation_validation")
+    outside = {}
+    sigs = {}
+    nd = nf = 0
+
+    def out(reason, n=1):
+        outside[reason] = outside.get(reason, 0) + n
+    for i in idxs:
+        p = D.pgns[i]
+        fn = H.ns.get("decode_pgn_%s" % D.func_suffix(p))
+        if fn is None:
+            continue
+        for strlen in (0, 3):
+            lay = layout_var(p, strlen)
+            if lay is None:
+                out("variable-length definition that cannot be laid out (field without length)")
+                break
+            pv, fvars, views, assume, W = lay
+            payload = SymInt(z3.ZeroExt(1, pv))
+            H.var_mode = True
+            try:
+                paths, ex = explore(lambda: H.run_def(fn, payload), max_paths=256, assumptions=assume)
+            except Unsupported as e:
+                rep.inconc("%s (strings of %d bytes): %s" % (p.id, strlen, e))
+                continue
+            finally:
+                H.var_mode = False
+            nd += 1
+            pview = type("PV", (), {})()
+            pview.__dict__.update(p.__dict__)
+            pview.fields = views
+            for pa in paths:
+                st0, m0 = satisfiable(z3.And(*([c for c in pa.pc if not explorer.has_fp(c)] + assume)))
+                if st0 != "sat":
+                    continue
+                if pa.kind == "raise":
+                    if "not supported" in str(pa.value):
+                        out("definition contains a field type the generator does not support")
+                        continue
+                    pl = m0.eval(pv, True).as_long()
+                    rep.violation({"kind": "decoder-raises", "def": p.id, "exc": type(pa.value).__name__},
+                                  "%s raises %s: %s for payload %#x (strings of %d bytes)" % (p.id, type(pa.value).__name__, str(pa.value)[:60], pl, strlen),
+                                  {"kind": "decode", "def": p.id, "payload": hex(pl), "expect": "no-raise"})
+                    continue
+                if pa.kind != "return":
+                    continue
+                mode, m, calls, logged_def = pa.value
+                H.logged_deferred = logged_def[0]
+                if m is None or mode != "full":
+                    rep.inconc("%s (strings of %d bytes): decoder stopped early" % (p.id, strlen))
+                    continue
+                try:
+                    n = check_message(rep, D, H, pview, m, calls, pa, pv, fvars, mode, sigs, out, extra_assume=assume)
+                    nf += n[0]
+                except Unsupported as e:
+                    rep.inconc("%s: %s" % (p.id, e))
+    return dict(violations=rep.violations, inconclusive=rep.inconclusive, errors=rep.harness_errors, outside=outside,
+                sigs={}, programs=nd, fields=nf, dis=0, samples=[{"variable_definition_runs": nd, "fields": nf}] if nd else [], stats=explorer.STATS)
 
 
 _MEMO = {}
@@ -445,6 +590,19 @@ def run(tier, seed):
                 rep.sample(smp)
             explorer.STATS.merge(part["stats"])
             rep.count("translator_validation_payloads", part.get("nvalid", 0))
+        # definitions with variable-length strings, string lengths pinned
+        var_defs = [i for i, q in enumerate(D.pgns) if any(f.type in ("STRING_LAU", "STRING_LZ") for f in q.fields)]
+        vparts = pool.map(_var_worker, [var_defs[k::nproc] for k in range(nproc) if var_defs[k::nproc]], chunksize=1)
+        for part in vparts:
+            for v in part["violations"]:
+                rep.violation(*v)
+            rep.inconclusive += part["inconclusive"]
+            rep.harness_errors += part["errors"]
+            for k, n in part.get("outside", {}).items():
+                outside[k] = outside.get(k, 0) + n
+            rep.count("variable_definition_runs", part.get("programs", 0))
+            rep.count("fields_checked_in_variable_definitions", part.get("fields", 0))
+            explorer.STATS.merge(part["stats"])
         rep.count("definitions_run", programs)
         rep.count("fields_checked", fields_checked)
         # ---- kernel-level obligations per numeric signature
@@ -473,7 +631,7 @@ def run(tier, seed):
     return rep.finish(replay)
 
 
-def check_message(rep, D, H, p, m, calls, pa, pv, fvars, mode, sigs, out):
+def check_message(rep, D, H, p, m, calls, pa, pv, fvars, mode, sigs, out, extra_assume=()):
     nchk = 0
     nbad = 0
 
@@ -508,6 +666,29 @@ def check_message(rep, D, H, p, m, calls, pa, pv, fvars, mode, sigs, out):
         if from_db != have:
             bad({"kind": "field-metadata", "def": p.id, "field": f.id}, "%s.%s: field metadata %r, database %r" % (p.id, f.id, have, from_db),
                 {"kind": "meta", "def": p.id, "payload": "0x0"})
+        if f.type in ("STRING_LAU", "STRING_LZ") and f.fixed and isinstance(getattr(f, "_f", None), object) and hasattr(f, "_f"):
+            # pinned-length run: the text is made of exactly the field's own text bytes
+            fv = fvars[f.order]
+            hdr = 2 if f.type == "STRING_LAU" else 1
+            v = got.value
+            ntext = f.len // 8 - hdr
+            if ntext == 0:
+                ok = (v == "" or (isinstance(v, SymText) and not v.items))
+                if not ok:
+                    rep.violation({"kind": "string-bits", "def": p.id, "field": f.id}, "%s.%s: empty string decodes as %r" % (p.id, f.id, v),
+                                  {"kind": "decode", "def": p.id, "payload": "0x0", "expect": "no-raise"})
+            elif not isinstance(v, SymText) or len(v.items) != ntext:
+                st_, m_ = prove(z3.BoolVal(False), list(extra_assume) + list(pa.pc))
+                rep.violation({"kind": "string-bits", "def": p.id, "field": f.id}, "%s.%s: text has %s characters, field has %d" % (p.id, f.id, len(v.items) if isinstance(v, SymText) else "?", ntext),
+                              {"kind": "field", "def": p.id, "field": f.id, "payload": model_payload(m_) if m_ is not None else "0x0", "what": "string-bits"})
+            else:
+                cs = [eq_term(b, SymInt(z3.ZeroExt(1, z3.Extract(8 * (hdr + i_) + 7, 8 * (hdr + i_), fv)))) for i_, b in enumerate(v.items)]
+                st_, m_ = prove(z3.And(*cs), list(extra_assume) + list(pa.pc), label="string-bits/%s" % f.type)
+                if st_ == "sat":
+                    rep.violation({"kind": "string-bits", "def": p.id, "field": f.id}, "%s.%s: text is not made of the field's own bytes" % (p.id, f.id),
+                                  {"kind": "field", "def": p.id, "field": f.id, "payload": model_payload(m_), "what": "string-bits"})
+            nchk += 1
+            continue
         if f.type not in SUPPORTED or not f.fixed:
             out("field type %s / no fixed position" % f.type)
             continue
@@ -517,10 +698,12 @@ def check_message(rep, D, H, p, m, calls, pa, pv, fvars, mode, sigs, out):
         lab = "%s/%d%s" % (f.type, f.len, "s" if f.signed else "u")
 
         def field_violation(kind, model, text):
-            rp = {"kind": "field", "def": p.id, "field": f.id, "payload": model_payload(model) if model is not None else "0x0", "what": kind}
+            rp = {"kind": "field", "def": p.id, "field": f.id, "payload": model_payload(model) if model is not None else "0x0", "what": kind,
+                  "off": f.off, "len": f.len, "index": p.fields.index(f)}
             bad({"kind": kind, "def": p.id, "field": f.id}, "%s.%s (%s): %s" % (p.id, f.id, f.type, text), rp)
 
         def need(claim, kind, text, assumptions=()):
+            assumptions = list(assumptions) + list(extra_assume)
             st, mm = canon_prove(claim, list(assumptions), fv, lab + "/" + kind)
             if st == "sat":
                 # re-derive a model over the real variable names for the replay
@@ -858,9 +1041,11 @@ def replay(r):
                 ok = False
         return not (ok and nf), "metadata comparison"
     if k == "field":
-        f = [f for f in p.fields if f.id == r["field"]][0]
+        idx = r.get("index")
+        f = p.fields[idx] if idx is not None else [f for f in p.fields if f.id == r["field"]][0]
         idx = p.fields.index(f)
-        raw = (payload >> f.off) & ((1 << f.len) - 1)
+        off, ln = r.get("off", f.off), r.get("len", f.len)
+        raw = (payload >> off) & ((1 << ln) - 1)
         if err is not None:
             return True, "raised %r" % (err,)
         g = m.fields[idx]
